@@ -37,15 +37,19 @@ Record registry := mk_registry {
   reg_main : N;                    (* program_path *)
   reg_files : list N;              (* keys of `files` *)
   reg_ranges : list rrange;        (* `ranges`, sorted by r_from *)
-  reg_mappings : list (N * N)      (* `mappings` : file -> offset *)
+  reg_mappings : list (N * N);     (* `mappings` : file -> offset *)
+  reg_link : list (N * N)          (* AFTER fix_1: DebugInformation::link_base of each file of `files`
+                                      (lowest PT_LOAD p_vaddr, page aligned); absent = 0 *)
 }.
+Definition link_base_of (lb : list (N * N)) (f : N) : N :=
+  match alist_get N.eqb lb f with Some b => b | None => 0 end.
 
 Inductive ord := OLess | OEqual | OGreater.
 
-(* the closure of find_range (registry.rs:207-215), operators exactly as written:
-   `addr >= range.from && addr <= range.to` -> Equal; `range.from > addr` -> Greater; else Less *)
+(* the closure of find_range (registry.rs), operators exactly as written AFTER fix_4:
+   `addr >= range.from && addr < range.to` -> Equal; `range.from > addr` -> Greater; else Less *)
 Definition range_cmp (addr : N) (r : rrange) : ord :=
-  if (r_from r <=? addr) && (addr <=? r_to r) then OEqual
+  if (r_from r <=? addr) && (addr <? r_to r) then OEqual
   else if addr <? r_from r then OGreater
   else OLess.
 
@@ -172,25 +176,26 @@ Fixpoint sort_ranges (l : list rrange) : list rrange :=
 
 (* body of the `for_each` closure for one file: None = MappingNotFound pushed to `errors`;
    Panic 12 = `higher_sect.start() + higher_sect.size()` overflow *)
-Definition file_mapping (maps : list pmap) (f : N) : res (option (N * rrange)) :=
+Definition file_mapping (lb : list (N * N)) (maps : list pmap) (f : N) : res (option (N * rrange)) :=
   match filter (pm_of f) maps with
   | [] => Ok None
   | m0 :: ms =>
       let lower := min_by_start m0 ms in
       let higher := max_by_start m0 ms in
       if pm_start higher + pm_size higher <? USIZE_LIMIT
-      then Ok (Some (pm_start lower, mk_rrange (pm_start lower) (pm_start higher + pm_size higher) f))
+      (* AFTER fix_1: `lower_sect.start().saturating_sub(dwarf.link_base())` (N subtraction saturates) *)
+      then Ok (Some (pm_start lower - link_base_of lb f, mk_rrange (pm_start lower) (pm_start higher + pm_size higher) f))
       else Panic 12
   end.
 
 (* result: (mappings, unsorted ranges, files without mapping) *)
-Fixpoint collect_mappings (maps : list pmap) (files : list N)
+Fixpoint collect_mappings (lb : list (N * N)) (maps : list pmap) (files : list N)
   : res (list (N * N) * list rrange * list N) :=
   match files with
   | [] => Ok ([], [], [])
   | f :: t =>
-      fm <- file_mapping maps f ;;
-      rest <- collect_mappings maps t ;;
+      fm <- file_mapping lb maps f ;;
+      rest <- collect_mappings lb maps t ;;
       let '(ms, rs, es) := rest in
       match fm with
       | None => Ok (ms, rs, f :: es)
@@ -203,9 +208,9 @@ Fixpoint collect_mappings (maps : list pmap) (files : list N)
 Definition update_mappings (rg : registry) (only_main : bool) (maps : list pmap)
   : res (registry * list N) :=
   let fs := if only_main then filter (N.eqb (reg_main rg)) (reg_files rg) else reg_files rg in
-  c <- collect_mappings maps fs ;;
+  c <- collect_mappings (reg_link rg) maps fs ;;
   let '(ms, rs, es) := c in
-  Ok (mk_registry (reg_main rg) (reg_files rg) (sort_ranges rs) ms, es).
+  Ok (mk_registry (reg_main rg) (reg_files rg) (sort_ranges rs) ms (reg_link rg), es).
 
 (* DwarfRegistry::dump (registry.rs:281) = `sharedlib info`: every file of `files` with the
    range recorded for it (if any).  Order (main first, then by path) is not modelled: the
@@ -239,7 +244,8 @@ Definition reload (rg : registry) (target : list N) : registry :=
   mk_registry (reg_main rg)
               (add_new (filter keep (reg_files rg)) (filter parse_ok target))
               (filter (fun r => keep (r_file r)) (reg_ranges rg))
-              (filter (fun p => keep (fst p)) (reg_mappings rg)).
+              (filter (fun p => keep (fst p)) (reg_mappings rg))
+              (reg_link rg).   (* link bases of newly parsed files: supplied with the registry (static per file) *)
 
 (* update_debug_info_registry: link-map names [libs], current /proc/pid/maps [maps] *)
 Definition update_debug_info_registry (rg : registry) (libs : list N) (maps : list pmap)
@@ -259,10 +265,12 @@ Inductive attempt :=
 
 (* what the debugger loop does at a stop that changes the set of loaded objects *)
 Inductive ev_kind :=
-| EvEntry       (* BrkptType::EntryPoint: registry refreshed (debugee/mod.rs:303-311),
-                   enable_all_breakpoints, NO refresh_deferred (mod.rs:589-625) *)
+| EvEntry       (* BrkptType::EntryPoint: registry refreshed (debugee/mod.rs:308-332; not for a
+                   statically linked program, which has no link map - not modelled),
+                   enable_all_breakpoints, refresh_deferred (mod.rs:593-635, AFTER fix_5;
+                   before f0ae46b this arm did not retry the deferred list) *)
 | EvLinkerMap.  (* BrkptType::LinkerMapFn (r_brk): registry refreshed (debugee/mod.rs:313),
-                   refresh_deferred (mod.rs:626-631) *)
+                   refresh_deferred (mod.rs:636-641) *)
 
 Definition log_entry : Type := (nat * N * list N).   (* event index, request, addresses *)
 
@@ -286,8 +294,8 @@ Definition round : Type := (ev_kind * (N -> attempt)).
 Fixpoint run_rounds (idx : nat) (rs : list round) (ds : list N) : list N * list log_entry :=
   match rs with
   | [] => (ds, [])
-  | (EvEntry, _) :: t => run_rounds (S idx) t ds
-  | (EvLinkerMap, ts) :: t =>
+  (* AFTER fix_5 both arms call refresh_deferred *)
+  | (_, ts) :: t =>
       let '(keep, lg, _) := refresh_deferred ts idx ds in
       let '(ds', lg') := run_rounds (S idx) t keep in
       (ds', lg ++ lg')
@@ -407,7 +415,7 @@ Definition optN_eqb (a b : option N) : bool :=
   match a, b with Some x, Some y => N.eqb x y | None, None => true | _, _ => false end.
 
 Definition reloc_check (c : reloc_case) : N :=
-  let rg := mk_registry 0 [] (rc_ranges c) (rc_mappings c) in
+  let rg := mk_registry 0 [] (rc_ranges c) (rc_mappings c) [] in
   let model := match find_mapping_offset rg (rc_addr c) with Ok o => Some o | _ => None end in
   let spec := match spec_find_range (rc_ranges c) (rc_addr c) with
               | Some r => mapping_get (rc_mappings c) (r_file r)
@@ -441,7 +449,7 @@ Definition dump_agree (files : list N) (a b : list (N * option (N * N))) : bool 
                     | _, _ => false end) files.
 
 Definition maps_check (c : maps_case) : N :=
-  let rg0 := mk_registry (mc_main c) (mc_files c) [] [] in
+  let rg0 := mk_registry (mc_main c) (mc_files c) [] [] [] in
   let model_ok := match update_mappings rg0 false (mc_maps c) with
                   | Ok (rg, _) => dump_agree (mc_files c) (dump rg) (mc_real c)
                   | _ => false end in
@@ -464,7 +472,7 @@ Record relocate_case := mk_relocate_case {
 
 Definition relocate_check (c : relocate_case) : N :=
   let f := im_file (lc_image c) in
-  let rg0 := mk_registry f [f] [] [] in
+  let rg0 := mk_registry f [f] [] [] [(f, im_min_vaddr (lc_image c))] in
   let model := match update_mappings rg0 false (lc_maps c) with
                | Ok (rg, _) => match relocate_to_segment rg (lc_g c) f with
                                | Ok a => Some (Some a) | Err _ => Some None | _ => None end
